@@ -62,6 +62,12 @@ func (f *Fixture) MkTx(st *state.StateDB, number *big.Int, op string) (*types.Tr
 		return sign(f.P, &f.KStore, big.NewInt(7), 100000, nil)
 	case "clear": // contract call that clears a storage slot (gas refund)
 		return sign(f.P, &f.KClear, new(big.Int), 100000, nil)
+	case "size": // KSize stores EXTCODESIZE(KDie): reads the code-size path of the state database
+		return sign(f.P, &f.KSize, new(big.Int), 100000, nil)
+	case "die": // KDie self-destructs to the caller: the code at that address goes away
+		return sign(f.P, &f.KDie, new(big.Int), 100000, nil)
+	case "fund": // 1 wei to KDie's address (re-creates the account, without code, once the contract is gone)
+		return sign(f.P, &f.KDie, big.NewInt(1), 100000, nil)
 	case "revert": // contract call that reverts (value must come back)
 		return sign(f.P, &f.KRevert, big.NewInt(9), 100000, nil)
 	case "create": // contract creation: init code returns 1 byte of runtime code
@@ -154,6 +160,9 @@ func (f *Fixture) MkTx(st *state.StateDB, number *big.Int, op string) (*types.Tr
 		return stk(f.D1, staking.DelegationSub, &staking.TxDelegation{Validator: val().Main, Value: Unit(900, 0)})
 	case "dsettle":
 		return stk(f.D1, staking.DelegationSettle, &staking.TxDelegationSettle{Validator: val().Main})
+	}
+	if tx, ok, err := f.mkTxLimits(st, number, name, arg); ok { // limits.go: ops at the stakes / delegation limits
+		return tx, err
 	}
 	return nil, fmt.Errorf("unknown tx op %q", op)
 }
